@@ -1666,7 +1666,9 @@ def describe_callable(v, depth=0):
 GENERIC_PRELUDE = (
     "from dataclasses import dataclass\n"
     "from decimal import Decimal\n"
-    "from typing import Any, Dict, Generic, List, Optional, TypedDict, TypeVar, Union\n"
+    "from typing import Any, Dict, Generic, List, NamedTuple, Optional, TypedDict, TypeVar, Union\n"
+    "from attrs import define as attrs_define\n"
+    "from pydantic import BaseModel as PydBaseModel\n"
     "T = TypeVar('T')\nU = TypeVar('U')\nV = TypeVar('V')\n"
     "@dataclass\nclass Book:\n    title: str\n"
     "B = TypeVar('B', bound=Book)\nC = TypeVar('C', str, bytes)\nN = TypeVar('N', bound=int)\n"
@@ -1742,6 +1744,18 @@ def generics_family(tier, seed):
         "td_shadowing": {"kind": "typeddict", "classes": [("A", ["T"], [], {"x": "T", "y": "T"}),
                                                           ("B", ["U"], [("A", ["int"])], {"x": "List[U]"})],
                          "queries": ["B[Decimal]"]},
+        "attrs_three_levels": {"kind": "attrs", "classes": [("A", ["T"], [], {"a": "T"}),
+                                                            ("B", ["T", "U"], [("A", ["U"])], {"b": "Dict[U, T]"}),
+                                                            ("C3", ["V"], [("B", ["V", "int"])], {"c": "Optional[V]"})],
+                               "queries": ["C3[str]", "B[str, bool]", "A"]},
+        "attrs_shadowing": {"kind": "attrs", "classes": [("A", ["T"], [], {"x": "T", "y": "T"}),
+                                                         ("B", ["U"], [("A", ["int"])], {"x": "List[U]"})],
+                            "queries": ["B[Decimal]", "B[str]"]},
+        "nt_simple": {"kind": "namedtuple", "classes": [("A", ["T", "U"], [], {"x": "T", "xs": "Dict[U, List[T]]", "n": "int"})],
+                      "queries": ["A[int, str]", "A[Decimal, bytes]", "A"]},
+        "pyd_two_levels": {"kind": "pydantic", "classes": [("A", ["T"], [], {"a": "T", "as_": "List[T]"}),
+                                                           ("B", ["T", "U"], [("A", ["U"])], {"b": "Dict[str, T]"})],
+                           "queries": ["B[str, int]", "A[Decimal]"]},
         "two_bases": {"classes": [("A", ["T"], [], {"a": "T"}), ("M", ["U"], [], {"m": "U"}),
                                   ("B", ["T", "U"], [("A", ["T"]), ("M", ["U"])], {"own": "Dict[T, U]"})],
                       "queries": ["B[int, str]", "B[str, float]"]},
@@ -1800,6 +1814,18 @@ def generics_family(tier, seed):
                 if not bases:
                     bl.insert(0, "TypedDict")
                 src += f"class {name}({', '.join(bl)}):\n{body}\n"
+                continue
+            if spec.get("kind") == "namedtuple":
+                bl.insert(0, "NamedTuple")
+                src += f"class {name}({', '.join(bl)}):\n{body}\n"
+                continue
+            if spec.get("kind") == "pydantic":
+                if not bases:
+                    bl.insert(0, "PydBaseModel")
+                src += f"class {name}({', '.join(bl)}):\n{body}\n"
+                continue
+            if spec.get("kind") == "attrs":
+                src += f"@attrs_define\nclass {name}" + (f"({', '.join(bl)})" if bl else "") + f":\n{body}\n"
                 continue
             src += f"@dataclass\nclass {name}" + (f"({', '.join(bl)})" if bl else "") + f":\n{body}\n"
         _KIND_COUNTER[0] += 1
